@@ -98,7 +98,7 @@ def make(ctx, n, strikes, notional, df, cv=None, spot_stats=False, concrete=None
     elif len(strikes) == 1:
         payoff = PAY.Vanilla(strike=strikes[0], payoff_type=PAY.PayoffType.CALL)
     else:
-        payoff = PAY.Vanilla(strike=np.array(strikes, dtype=object if concrete is None else float), payoff_type=PAY.PayoffType.CALL)
+        payoff = PAY.Vanilla(strike=np.array(strikes, dtype=object if (concrete is None or any(V.is_sym(k) for k in strikes)) else float), payoff_type=PAY.PayoffType.CALL)
     prod = PROD.Product(payoff_underlying=underlying if underlying is not None else UND.Spot(), payoff=payoff, maturity=1.0, notional=notional)
     return eng, prod, proc
 
@@ -313,6 +313,74 @@ def h_cv_nthspot(ctx, n=2):
     ctx.prove("C07.cv.control_samples_are_the_controls_payoff_on_each_path", AND(*[EQ(X[j], df * nx * (proc.handed[j][0] - kx)) for j in range(n)]), info={"n": n, "control": "NthSpot(1) forward"}, replay=rp)
     raw = np.asarray(stats.price(no_control_variates=True), dtype=object).reshape(-1)
     ctx.prove("C07.cv.raw_price_unchanged", EQ(raw[0], sum(df * notional * (proc.handed[j][0] + proc.handed[j][1] - k) for j in range(n)) / n), info={"payoff": "basket forward"}, replay=rp)
+
+
+def replay_cv_vector(sc):
+    """real standard engine, call with two strikes, two controls (calls with two strikes each, vector prices): the stored control samples are
+    [path, control, strike] = the control's payoff for that strike on that path"""
+    ss = [0.8, 1.3, 1.1, 1.9, 0.6]
+    kx = [[0.9, 1.2], [0.7, 1.5]]
+    nxs = [1.0, 1.5]
+    cvs = [PROD.Product(payoff_underlying=UND.Spot(), payoff=PAY.Vanilla(strike=np.array(kx[c]), payoff_type=PAY.PayoffType.CALL), maturity=1.0, notional=nxs[c]) for c in range(2)]
+    cv = PROD.ControlVariates(products=cvs, prices=[np.array([0.3, 0.2]), np.array([0.5, 0.1])])
+    try:
+        eng, prod, proc = make(None, len(ss), [1.0, 1.4], 2.0, 0.9, cv=cv, concrete=ss)
+        stats = eng.price(prod)
+    except Exception as e:
+        return True, f"call with two strikes and two vector-strike controls: price() raises {type(e).__name__}: {str(e)[:150]}"
+    X = np.asarray(stats._control_variates_statistics.stats, dtype=float)
+    want = np.array([[[0.9 * nxs[c] * max(x - kx[c][k], 0.0) for k in range(2)] for c in range(2)] for x in ss])
+    bad = X.shape != want.shape or not np.allclose(X, want, atol=1e-12)
+    return bad, (f"call with strikes (1.0, 1.4), two controls with strikes {kx}: stored control samples of the first path {X[0].tolist() if X.ndim == 3 else X.shape}, "
+                 f"the controls' payoffs [control][strike] on it {want[0].tolist()}")
+
+
+def h_cv_vector(ctx, n=2):
+    """control variates together with a vector of strikes: two strikes, two controls with two strikes each; the covariance matrices the
+    regression uses are fresh symbols (cov hook); what is proved is the layout of the stored control samples and the raw price"""
+    df, notional = ctx.real("df", 0), ctx.real("notional")
+    ks = [ctx.real("k0"), ctx.real("k1")]
+    kx = [[ctx.real(f"kx{c}{k}") for k in range(2)] for c in range(2)]
+    nxs = [ctx.real("notional_x0"), ctx.real("notional_x1")]
+    prices = [np.array([ctx.real(f"px{c}{k}") for k in range(2)], dtype=object) for c in range(2)]
+    cvs = [PROD.Product(payoff_underlying=UND.Spot(), payoff=PAY.Vanilla(strike=np.array(kx[c], dtype=object), payoff_type=PAY.PayoffType.CALL), maturity=1.0, notional=nxs[c]) for c in range(2)]
+    cv = PROD.ControlVariates(products=cvs, prices=prices)
+    spots = [ctx.real(f"s{j}") for j in range(n)]
+    ctx.fork_max = True
+    eng, prod, proc = make(ctx, n, ks, notional, df, cv=cv, concrete=spots)
+    rp = (replay_cv_vector, lambda m: {})
+    npx = PROD.np
+    orig_cov = npx.cov
+    cnt = [0]
+
+    def cov_hook(m, y=None, rowvar=True, bias=False, ddof=None, **kw):
+        if V.get_context() is None:
+            return orig_cov(m, y=y, rowvar=rowvar, bias=bias, ddof=ddof, **kw)
+        cnt[0] += 1
+        S = np.empty((3, 3), dtype=object)
+        for i in range(3):
+            for j in range(i, 3):
+                S[i, j] = S[j, i] = ctx.real(f"sig{cnt[0]}_{i}{j}")
+        ctx.assume(AND(S[0, 0] > Fraction(1, 10**6), S[1, 1] > Fraction(1, 10**6), S[0, 0] * S[1, 1] - S[0, 1] * S[0, 1] > Fraction(1, 10**6)))
+        return S
+
+    npx.cov = cov_hook
+    try:
+        stats = eng.price(prod)
+    finally:
+        del npx.cov
+    X = np.asarray(stats._control_variates_statistics.stats, dtype=object)
+    ok = X.shape == (n, 2, 2)
+    terms = []
+    if ok:
+        for j in range(n):
+            for c in range(2):
+                for k in range(2):
+                    terms.append(EQ(X[j, c, k], df * nxs[c] * shims._smax_fork(spots[j] - kx[c][k], 0.0)))
+    ctx.prove("C07.cv.control_samples_are_the_controls_payoff_on_each_path", ok and AND(*terms), info={"n": n, "strikes": 2, "controls": 2}, replay=rp)
+    raw = np.asarray(stats.price(no_control_variates=True), dtype=object).reshape(-1)
+    for k in range(2):
+        ctx.prove("C07.cv.raw_price_unchanged", EQ(raw[k], sum(df * notional * shims._smax_fork(s - ks[k], 0.0) for s in spots) / n), info={"strike": k}, replay=rp)
 
 
 def replay_cv_log(sc):
@@ -584,6 +652,7 @@ def harnesses(tier):
     for n in ((3,) if q else (3, 4)):
         hs.append(Harness(f"cv2.N{n}", h_cv2, {"n": n}, max_paths=2000, timeout_ms=120000))
     hs.append(Harness("cvn.N2.single_asset_control_next_to_a_two_asset_product", h_cv_nthspot, {"n": 2}, max_paths=2000, timeout_ms=60000))
+    hs.append(Harness("cvv.N1.two_strikes_two_controls", h_cv_vector, {"n": 1}, max_paths=4000, timeout_ms=60000))
     hs.append(Harness("cv1.N2.log_process", h_cv_comp, {"n": 2, "log_process": True}, max_paths=4000, timeout_ms=60000))
     hs.append(Harness("cv1.N2.controls_object_reused", h_cv_comp, {"n": 2, "reuse": True}, max_paths=4000, timeout_ms=60000))
     hs.append(Harness("cv2.uncorrelated.N3", h_cv2, {"n": 3, "uncorrelated": True}, max_paths=2000, timeout_ms=120000))
@@ -595,16 +664,17 @@ def harnesses(tier):
 
 EXPECT = ["C07.price_is_discounted_mean_of_notional_scaled_payoff", "C07.mc_error_is_unbiased_stddev_over_sqrt_N", "C07.simulates_exactly_the_configured_number_of_paths",
           "C07.cv.adjusted_price_is_mean_of_Y_minus_bstar_X_minus_price", "C07.cv.equals_raw_when_control_mean_equals_its_price",
-          "C07.cv.adjusted_variance_is_raw_minus_explained", "C07.cv.covariances_are_biased_sample_covariances", "C07.cv.adjusted_samples_are_Y_minus_bstar_X_minus_price", "C07.repeated_pricing_uses_only_its_own_paths", "C07.pricing_leaves_the_product_unchanged"]
+          "C07.cv.adjusted_variance_is_raw_minus_explained", "C07.cv.covariances_are_biased_sample_covariances", "C07.cv.adjusted_samples_are_Y_minus_bstar_X_minus_price", "C07.repeated_pricing_uses_only_its_own_paths", "C07.pricing_leaves_the_product_unchanged",
+          "C07.cv.control_samples_are_the_controls_payoff_on_each_path"]
 
 
 # reference replays run when the symbolic run of a harness ends in an exception of the code under analysis (see runner.run_check)
-ERROR_REPLAYS = {"cv2.uncorrelated": (replay_cv2_uncorrelated, {}), "cv2.": (replay_cv2, {"n": 4}), "cv1.N2.controls_object_reused": (replay_cv_reuse, {}), "cv1.N2.log_process": (replay_cv_log, {}), "cvn.": (replay_cv_nthspot, {}), "cv": (replay_cv, {"n": 4, "nx": 2.5}),
+ERROR_REPLAYS = {"cv2.uncorrelated": (replay_cv2_uncorrelated, {}), "cv2.": (replay_cv2, {"n": 4}), "cv1.N2.controls_object_reused": (replay_cv_reuse, {}), "cv1.N2.log_process": (replay_cv_log, {}), "cvn.": (replay_cv_nthspot, {}), "cvv.": (replay_cv_vector, {}), "cv": (replay_cv, {"n": 4, "nx": 2.5}),
                  "price.": (replay_price, {"n": 3, "strikes": [0.9, 1.3]}), "twice.": (replay_twice, {"n": 2})}
 
 
 def main(tier):
-    bounds = {"histories_and_variants": 'one ControlVariates object used for two pricings (spot product with 2 concrete paths, then log-spot product with N = 2 symbolic paths)',
+    bounds = {"histories_and_variants": 'one ControlVariates object used for two pricings (spot product with 2 concrete paths, then log-spot product with N = 2 symbolic paths); log-simulated process with a control on another underlying type (N = 2); two assets with a scalar basket payoff and a single-asset control (N = 2)',
               "paths": "N <= 3 (quick) / 4 (thorough)", "payoff": "forward, call with scalar strike, call with a vector of 2 strikes; notional, discount factor, strikes arbitrary reals",
               "controls": "one control (forward on the spot, arbitrary notional, strike and price): direct identities N = 2 (quick) / 2, 3 (thorough), compositional N <= 3 / 5; two controls (forward and call with a notional, "
                           "plain-float prices, 2x2 inverse), N = 3 (quick) / 3, 4 (thorough)",
